@@ -201,7 +201,8 @@ static const void *VG_TK3_KEY; static unsigned VG_TK3_SIZE; static unsigned VG_T
     V128_LOAD_PADDED(VG_T, key, key_size) V128_SAVE_OLD(ks) KEYV = key; SIZEV = key_size; NV = NV + 1;
 
 #define V128_TKN_UNPACK_LOOP \
-    __CPROVER_assigns(index, word, __CPROVER_object_whole(&tk)) \
+    /* no explicit assigns clause: dfcc infers the loop's write set, so the contract does not name the
+       incidental temporary `word` (a change that restructures the unpacking must fail on the invariant, not on a missing identifier) */ \
     __CPROVER_loop_invariant(index <= 16 && (index & 3) == 0) \
     __CPROVER_loop_invariant(V128_UNPACK_PREFIX_OK(tk, VG_T, index)) \
     __CPROVER_decreases(20 - index)
